@@ -135,7 +135,7 @@ theorem compile_gstmt : ∀ (fuel : Nat),
         refine bind_run _ _ _ _ (freshVar cs.currModule
           { env with lm := (cgE cs.currModule (ρS env.scopes) (φOf cs) e env.lm).2 } name).1 _ ?_ rfl
         rw [compileLet]
-        refine bind_run _ _ _ _ _ _ ((compile_gexpr f').1 e cs he (by omega) L c0 env hws) ?_
+        refine bind_run _ _ _ _ _ _ (compile_xexpr f' e cs he (by omega) L c0 env hws) ?_
         simp only [Bool.false_eq_true, if_false]
         refine bind_run _ _ _ _ _ _ (mangleVar_run_S _ _ _ _ _) ?_
         refine bind_run _ _ _ _ _ _ (emit_run_S _ _ _ _ _ _) ?_
@@ -148,7 +148,37 @@ theorem compile_gstmt : ∀ (fuel : Nat),
         rcases okGS_exprS_inv _ _ _ sp e hs with ⟨asp, op, isp, ity, name, isFn, r, rfl, hr, hlog⟩ |
           ⟨isp, ty, cnd, t, eb, rfl, hty, hcnd, ht, heb⟩ | ⟨isp, ty, cnd, t, rfl, hty, hcnd, ht⟩ |
           ⟨csp, cty, isp, ity, name, g, f, si, args, sw, rfl, hcase⟩ | ⟨tsp, tty, tb, ci, cb, rfl, htty, htb, hcb⟩ |
-          ⟨msp, mty, mc, arms, db, rfl, hmty, hmc, hmarms, hmdb⟩
+          ⟨msp, mty, mc, arms, db, rfl, hmty, hmc, hmarms, hmdb⟩ | ⟨asp, op, isp, ity, b, i, r, rfl⟩
+        rotate_right
+        · -- `l[i] = e`, `l[i] op= e`
+          rw [okFS_idxAssign] at hs
+          simp only [Bool.and_eq_true] at hs
+          obtain ⟨⟨⟨hop, hl⟩, hr⟩, _⟩ := hs
+          simp only [Frag.cdS, Frag.cdX] at hd
+          obtain ⟨f', rfl⟩ : ∃ f', fuel = f' + 1 := ⟨fuel - 1, by have := cdE_pos r; omega⟩
+          rw [wsGS_idxAssign] at hws
+          simp only [Bool.and_eq_true] at hws
+          obtain ⟨hwl, hwr⟩ := hws
+          rw [compileStmt, cgS_idxAssign]
+          refine bind_run _ _ _ (updS cs L (c0 ++ _) _) () _ ?_ (by simp [Expr.ty, Ty.isNull]; rfl)
+          rw [compileExpr]
+          rotate_left
+          · intro _ _ _ _ _ _ h; cases h
+          refine bind_run _ _ _ _ _ _ (compile_xexpr f' _ cs hl (by omega) L c0 env hwl) ?_
+          cases op with
+          | none =>
+            simp only [opPre, opPost]
+            refine bind_run _ _ _ _ _ _ (compile_xexpr f' r cs hr (by omega) L _ _ hwr) ?_
+            rw [emit_run_S]
+            simp only [List.append_assoc, List.nil_append]
+          | some o =>
+            have hlog : Frag.isLogical o = false := by simpa [opOK] using hop
+            simp only [opPre, opPost]
+            refine bind_run _ _ _ _ _ _ (emit_run_S _ _ _ _ _ _) ?_
+            refine bind_run _ _ _ _ _ _ (compile_xexpr f' r cs hr (by omega) L _ _ hwr) ?_
+            refine bind_run _ _ _ _ _ _ (arith_run_S _ _ _ _ _ _ hlog) ?_
+            rw [emit_run_S]
+            simp only [List.append_assoc, List.cons_append, List.nil_append]
         · simp only [Frag.cdS, Frag.cdX] at hd
           obtain ⟨f', rfl⟩ : ∃ f', fuel = f' + 1 := ⟨fuel - 1, by have := cdE_pos r; omega⟩
           simp only [Frag.wsGS, Bool.and_eq_true] at hws
@@ -160,7 +190,7 @@ theorem compile_gstmt : ∀ (fuel : Nat),
             rw [compileExpr]
             refine bind_run _ _ _ _ _ _ (getMangled_run_S _ _ _ _ _) ?_
             simp only [Bool.or_self, Bool.false_eq_true, if_false]
-            refine bind_run _ _ _ _ _ _ (hGE f' (by omega) r cs hr (by omega) L c0 env hvr) ?_
+            refine bind_run _ _ _ _ _ _ (compile_xexpr f' r cs hr (by omega) L c0 env hvr) ?_
             rw [emit_run_S]
             simp only [List.append_assoc]
           | some o =>
@@ -171,7 +201,7 @@ theorem compile_gstmt : ∀ (fuel : Nat),
             refine bind_run _ _ _ _ _ _ (getMangled_run_S _ _ _ _ _) ?_
             simp only [Bool.or_self, Bool.false_eq_true, if_false]
             refine bind_run _ _ _ _ _ _ (emit_run_S _ _ _ _ _ _) ?_
-            refine bind_run _ _ _ _ _ _ (hGE f' (by omega) r cs hr (by omega) L _ env hvr) ?_
+            refine bind_run _ _ _ _ _ _ (compile_xexpr f' r cs hr (by omega) L _ env hvr) ?_
             refine bind_run _ _ _ _ _ _ (arith_run_S _ _ _ _ _ _ hlog) ?_
             rw [emit_run_S]
             simp only [List.append_assoc, List.cons_append, List.nil_append]
